@@ -120,7 +120,8 @@ class WeakForms(_Simu):
         # Data
         weakForms = self.weakForms
         field = weakForms.field
-        thickness = 1.0 if self.mesh.inDim == 3 else weakForms.thickness
+        # (a plane mesh can lie anywhere in space: the thickness belongs to the dimension of the elements, as in Thermal and Elastic)
+        thickness = weakForms.thickness if self.mesh.dim == 2 else 1.0
 
         tic = Tic()
 
